@@ -93,11 +93,19 @@ Outcome(shape, cfg) == IF Foreign(shape, cfg) # {} \/ Missing(shape, cfg) # {} T
 AfterSelection(shape, cfg) == {e \in cfg : ~(Len(e.p) >= 1 /\ <<e.p[1]>> \in DOMAIN shape /\ shape[<<e.p[1]>>].kind = "sec" /\ e.p[1] # Chosen(shape, cfg))}
 \* check_values: _find_action(key) / _is_branch_key(key): a key is fine when it is an action's dest or a PATH prefix
 \* ("g" of "g.a") of one; keys below a typed argument are checked by that argument's own (nested) parser
-AlgForeign(shape, cfg) == Foreign(shape, AfterSelection(shape, cfg))
-AlgMissing(shape, cfg) == Missing(shape, AfterSelection(shape, cfg))
+\* A second way for a key to escape validation (finding C06 foreign-key:empty-mapping-dropped): check_values walks
+\* cfg.get_sorted_keys(), i.e. the LEAF keys of the namespace; a key whose value is an empty mapping ({} or nested
+\* empty mappings) becomes an empty Namespace, which has no leaf and is never looked at.
+Visible(cfg) == {e \in cfg : e.v # "emptymap"}
+AlgForeign(shape, cfg) == Foreign(shape, Visible(AfterSelection(shape, cfg)))
+AlgMissing(shape, cfg) == Missing(shape, Visible(AfterSelection(shape, cfg)))
 AlgOutcome(shape, cfg) == IF AlgForeign(shape, cfg) # {} \/ AlgMissing(shape, cfg) # {} THEN "err" ELSE "ok"
+\* the outcome with the section deviation only (to tell the two findings apart)
+AlgOutcomeSel(shape, cfg) == IF Foreign(shape, AfterSelection(shape, cfg)) # {} \/ Missing(shape, AfterSelection(shape, cfg)) # {} THEN "err" ELSE "ok"
 
 \* The named deviation (finding C06 non-chosen-section:foreign-key-dropped): an undefined key inside the section of a
 \* sub-command that is not the chosen one disappears with the section and is never reported.
-ForeignOnlyInDroppedSection(shape, cfg) == Outcome(shape, cfg) = "err" /\ AlgOutcome(shape, cfg) = "ok"
+ForeignOnlyInDroppedSection(shape, cfg) == Outcome(shape, cfg) = "err" /\ AlgOutcome(shape, cfg) = "ok"     \* either named deviation
+DevKind(shape, cfg) == IF Outcome(shape, cfg) = "err" /\ AlgOutcomeSel(shape, cfg) = "ok" THEN "section"
+                       ELSE IF Outcome(shape, cfg) = "err" /\ AlgOutcome(shape, cfg) = "ok" THEN "emptymap" ELSE "none"
 =============================================================================
